@@ -1605,10 +1605,13 @@ class SchemaValidator:
 
                     return local_input_error
 
-                ref_type_details = self._resolve_type_from_global_ref(
-                    ref,
-                    resolution_context_thread_group_ref=pipeline.thread_group_ref,
-                )
+                try:
+                    ref_type_details = self._resolve_type_from_global_ref(
+                        ref,
+                        resolution_context_thread_group_ref=pipeline.thread_group_ref,
+                    )
+                except Exception as e:
+                    return [f"{self._context(f'{path}.ref')}: {str(e)}"]
 
                 if ref_type_details is None:
                     return [
@@ -2352,9 +2355,12 @@ class SchemaValidator:
                 local_ref=field, path=path
             )
         elif "filter_ref" in obj_spec["ref_types"] and is_filter_ref(field):
-            referenced_object_type = self._resolve_type_from_filter_ref(
-                filter_ref=field, path=path
-            )
+            try:
+                referenced_object_type = self._resolve_type_from_filter_ref(
+                    filter_ref=field, path=path
+                )
+            except Exception:
+                referenced_object_type = None
         else:
             if not is_global_ref(field):
                 return [f"{self._context(path)}: expected ref, got {json.dumps(field)}"]
